@@ -113,5 +113,8 @@ func (r *Rng) Pick(v ...int) int { return v[r.Intn(len(v))] }
 // PickF returns one of the given floats.
 func (r *Rng) PickF(v ...float64) float64 { return v[r.Intn(len(v))] }
 
+// PickS returns one of the strings.
+func (r *Rng) PickS(v ...string) string { return v[r.Intn(len(v))] }
+
 // Clone returns an independent copy of the generator in its current state.
 func (r *Rng) Clone() *Rng { c := *r; return &c }
